@@ -14,6 +14,7 @@ import (
 	"strings"
 	"sync"
 	"sync/atomic"
+	"syscall"
 	"time"
 )
 
@@ -58,6 +59,7 @@ type Worker struct {
 	wdSeen     int64 // watchdog only
 	wdSince    int64 // watchdog only
 	ID         int
+	Rev        bool  // second sweep of a trie oracle: keys / queries are asked in reverse order
 	Evals      int64 // cases evaluated
 	Trans      int64 // API calls whose result was compared
 	DontCare   int64 // outcomes classified as unspecified by the statement
@@ -123,8 +125,10 @@ type Run struct {
 	Level string // evidence level
 	Start time.Time
 	// Deadline: internal time budget; when hit the run ends with exhaustive=false.
-	Deadline time.Time
-	NWorkers int
+	Deadline     time.Time
+	cpuBudget    time.Duration
+	hardDeadline time.Time
+	NWorkers     int
 
 	Rule            string
 	Assumptions     []string
@@ -184,6 +188,9 @@ const noProgressLimit = 600 * time.Second
 // memGuardBytes: heap size at which the watchdog declares a runaway allocation.
 var memGuardBytes = uint64(14) << 30
 
+// peakHeap: largest heap the watchdog saw (reported in the evidence).
+var peakHeap uint64
+
 // NewRun creates a run; budget is the internal time budget.
 func NewRun(prop, tier string, seed int64, level string, budget time.Duration) *Run {
 	r := &Run{
@@ -205,6 +212,11 @@ func NewRun(prop, tier string, seed int64, level string, budget time.Duration) *
 	if r.NWorkers > 16 {
 		r.NWorkers = 16
 	}
+	// The budget of the enumeration driver is counted in CPU time (budget x
+	// workers), so that what a run covers does not depend on how busy the machine
+	// is; wall time only caps a run at three budgets.
+	r.cpuBudget = budget * time.Duration(r.NWorkers)
+	r.hardDeadline = r.Start.Add(3 * budget)
 	for i := 0; i < r.NWorkers; i++ {
 		r.workers = append(r.workers, r.newWorker(i))
 	}
@@ -216,6 +228,20 @@ func (r *Run) newWorker(i int) *Worker {
 	return &Worker{ID: i, Features: map[string]int64{}, Outcomes: map[string]int64{}, run: r, Scratch: map[string]interface{}{}}
 }
 
+// FirstViolation returns the recorded violation with the smallest unit number
+// (nil if none); used by replayers that re-run a whole exploration.
+func (r *Run) FirstViolation() *Viol {
+	r.mu.Lock()
+	defer r.mu.Unlock()
+	var first *Viol
+	for i := range r.viols {
+		if first == nil || r.viols[i].Unit < first.Unit {
+			first = &r.viols[i]
+		}
+	}
+	return first
+}
+
 // W0 returns worker 0 for single-threaded phases.
 func (r *Run) W0() *Worker { return r.workers[0] }
 
@@ -224,7 +250,17 @@ func (r *Run) stopped() bool {
 }
 
 // TimeUp reports whether the internal budget is used up.
-func (r *Run) TimeUp() bool { return time.Now().After(r.Deadline) }
+func (r *Run) TimeUp() bool {
+	if time.Now().After(r.hardDeadline) {
+		return true
+	}
+	var ru syscall.Rusage
+	if syscall.Getrusage(syscall.RUSAGE_SELF, &ru) != nil {
+		return time.Now().After(r.Deadline)
+	}
+	cpu := time.Duration(ru.Utime.Nano() + ru.Stime.Nano())
+	return cpu > r.cpuBudget
+}
 
 // Infra records an infrastructure error (never a violation).
 func (r *Run) Infra(err error) {
@@ -361,6 +397,15 @@ func (r *Run) watchdog() {
 		// the case on record, not as an out-of-memory crash
 		var ms runtime.MemStats
 		runtime.ReadMemStats(&ms)
+		if ms.HeapAlloc > atomic.LoadUint64(&peakHeap) {
+			atomic.StoreUint64(&peakHeap, ms.HeapAlloc)
+		}
+		if ms.HeapAlloc > memGuardBytes {
+			// garbage that the collector has not reclaimed yet is not a runaway
+			// allocation: only LIVE memory above the guard counts
+			runtime.GC()
+			runtime.ReadMemStats(&ms)
+		}
 		if ms.HeapAlloc > memGuardBytes {
 			var descs []string
 			for _, w := range r.workers {
@@ -497,6 +542,7 @@ func (r *Run) Finish() int {
 		"distinct_outcomes":             outcomes,
 		"phases":                        r.phases,
 		"bounds":                        r.Bounds,
+		"peak_heap_mib":                 atomic.LoadUint64(&peakHeap) >> 20,
 	}
 	if r.deadlineHit != "" {
 		cov["stopped_by_deadline_in"] = r.deadlineHit
